@@ -39,7 +39,10 @@ Step ==
             /\ objs' = [objs EXCEPT ![Ev.id] = Clear(@)] /\ bad' = bad /\ cov' = Bump(cov, "clear")
        [] o = "equal" ->
             /\ UNCHANGED objs
-            /\ LET allowed == IF Ev.other = 0 THEN {FALSE} ELSE EqualAllowed(objs[Ev.id], objs[Ev.other])
+            /\ \* other = 0 or > 1000000: the argument was not a MapMemory value (a plain map with the same contents, nil,
+               \* a DumbMemory, a pointer): never equal
+               LET allowed == IF Ev.other = 0 \/ Ev.other > 1000000 THEN {FALSE}
+                              ELSE EqualAllowed(objs[Ev.id], objs[Ev.other])
                IN IF (Ev.ret = 1) \in allowed
                   THEN bad' = bad /\ cov' = Bump(cov, "equal " \o (IF Ev.ret = 1 THEN "true" ELSE "false"))
                   ELSE Reject("equal") /\ cov' = Bump(cov, "REJECTED")
